@@ -30,6 +30,10 @@ pub fn build_pool(rng: &mut Rng, n: usize, big: bool, maxlen: usize) -> Vec<Pool
         if big && plain.len() <= 1024 {
             continue;
         }
+        if big && v.is_empty() {
+            // the smallest plaintext the property speaks of: "more than 1024 bytes"
+            plain.truncate(1025);
+        }
         if !big {
             // small enough that even a few IDAT chunk headers keep the run under 1 KiB
             plain.truncate(rng.range(1, 900) as usize);
